@@ -46,7 +46,7 @@ func checkC22(c *Check) {
 	cfg := configuration.New()
 	byteVals, maxBytes := "{0, 1, 100, 101, 255}", 6
 	if c.Tier == "thorough" {
-		byteVals, maxBytes = "{0, 1, 100, 101, 127, 128, 255}", 7
+		byteVals, maxBytes = "{0, 1, 100, 101, 127, 128, 255}", 6 // 7 bytes over 7 values does not finish within the time limit
 	}
 	params := paramsModuleExt("Integers", nil, "ByteValsV == "+byteVals+"\nCountsV == {0, 1, 14, 15, 16, 17, 128}")
 	cfgText := fmt.Sprintf("INIT Init\nNEXT Next\nINVARIANT Minimal\nINVARIANT Emit\nCHECK_DEADLOCK FALSE\nCONSTANTS\n ByteVals <- ByteValsV\n MaxBytes = %d\n Counts <- CountsV\n", maxBytes)
